@@ -11,6 +11,8 @@ MODEL_FIELDS = {
     "recv": ["ack", "src", "bal", "sup", "req", "ev", "st"],
     "recvh": ["ack", "src", "bal", "sup", "hreq", "calls", "ev", "st"],
     "msg": ["res", "ev", "st"],
+    "msgh": ["res", "hreq", "st"],
+    "acth": ["res", "dst", "bal"],
     "query": ["res", "out", "next", "total"],
     "export": ["st"],
     "reimport": ["valid", "init", "same", "st"],
@@ -81,6 +83,8 @@ def normalise(op, k, impl_v, model_v, step):
             else:
                 impl_parts.append(p)
         impl_v = ";".join(impl_parts)
+    if op == "acth" and k == "bal" and (step.impl.get("res") != "ok" or step.model.get("res") != "ok"):
+        return "-", "-"
     if op in ("recv", "recvh") and k in ("req", "hreq", "calls", "ev"):
         # recorded even when the operation fails on the implementation side; the model discards them
         if step.impl.get("ack") != "ok" or step.model.get("ack") != "ok":
